@@ -308,6 +308,24 @@ def check_stepper(name, cls, mon, viol, rng):
             viol.append(dict(key=r[0], what='%s: %s' % (name, r[1]),
                              case=dict(stepper=name)))
         mon['violating_faults'] = mon.get('violating_faults', 0) + 1
+    # several arrays: the misspelt keyword before, between or after valid
+    # ones (keyword order is the order a scheme adds its steppers in)
+    for order in (('dest', 'dest2', 'dset'), ('dest', 'dset', 'dest2'),
+                  ('dset', 'dest', 'dest2')):
+        pas = [make_array(nm_, need) for nm_ in ('dest', 'dest2')]
+        for pa_ in pas:
+            pa_.add_property('zz_more')
+        integ = Integrator(**{k_: ec.instantiate(cls) for k_ in order})
+        stage, exc = stages(pas, [Nothing(dest='dest', sources=None)], integ)
+        nf += 1
+        mon['faults_misspelt'] = mon.get('faults_misspelt', 0) + 1
+        r = judge(stage, exc, 'dset', 'dset', 'misspelt-stepper-array')
+        if r:
+            if sum(1 for v in viol if v['key'] == r[0]) < 3:
+                viol.append(dict(key=r[0], what='%s, stepper keywords %r: %s'
+                                 % (name, order, r[1]),
+                                 case=dict(stepper=name, order=order)))
+            mon['violating_faults'] = mon.get('violating_faults', 0) + 1
     return nf
 
 
